@@ -2,7 +2,8 @@ package main
 
 // C06, group "fsmodel": the filesystem model (coq/theories/FS) against the kernel and Go's os
 // package.  A random well-formed tree is materialized in a scratch directory, a random sequence
-// of operations over a small name space is applied (paths through symlinked directories, ".."
+// of operations (os.Lstat/Stat/Readlink/ReadFile/Mkdir/MkdirAll/Remove/RemoveAll/Symlink/Rename/Truncate,
+// OpenFile+Write/WriteAt, syscall.Rename) over a small name space is applied (paths through symlinked directories, ".."
 // in link destinations, dangling links, link loops, kind clashes), and the errno class / value
 // of every operation plus the final tree are printed for the model to reproduce.
 
@@ -161,7 +162,7 @@ func runFSModel(c *Ctx) error {
 		}
 		for k := 0; k < nops; k++ {
 			p := fsGenPath(cr)
-			switch op := cr.Intn(14); op {
+			switch op := cr.Intn(17); op {
 			case 0:
 				fi, err := os.Lstat(abs(p))
 				ops = append(ops, "OLstat "+coqPath(p))
@@ -215,6 +216,20 @@ func runFSModel(c *Ctx) error {
 				q := fsGenPath2(cr, p)
 				ops = append(ops, "ORename "+coqPath(p)+" "+coqPath(q))
 				res(os.Rename(abs(p), abs(q)), "RUnit")
+			case 14:
+				data := []byte(strings.Repeat("z", cr.Intn(4)))
+				off := cr.Intn(7)
+				ops = append(ops, fmt.Sprintf("OWriteAt %s %d %s", coqPath(p), off, coqFsData(data)))
+				f, err := os.OpenFile(abs(p), os.O_WRONLY, 0)
+				if err == nil {
+					_, err = f.WriteAt(data, int64(off))
+					f.Close()
+				}
+				res(err, "RUnit")
+			case 15:
+				n := cr.Intn(7)
+				ops = append(ops, fmt.Sprintf("OTruncate %s %d", coqPath(p), n))
+				res(os.Truncate(abs(p), int64(n)), "RUnit")
 			default:
 				q := fsGenPath2(cr, p)
 				ops = append(ops, "ORename2 "+coqPath(p)+" "+coqPath(q))
